@@ -66,7 +66,12 @@ type Scenario struct {
 	Expect   *Expect           `json:"expect,omitempty"`
 }
 
-var repoRoot = "/repo"
+var repoRoot = func() string {
+	if r := os.Getenv("FITSIM_REPO"); r != "" {
+		return r
+	}
+	return "/repo"
+}()
 
 var corpusCache = map[string][]byte{}
 
